@@ -414,6 +414,8 @@ def write_evidence(ctx, violations, extra_cov=None):
 
 def assert_repo_import():
     sys.path.insert(0, paths.REPO_SRC)
+    # commands started as subprocesses must import the same source tree as the in-process runs
+    os.environ["PYTHONPATH"] = paths.REPO_SRC + (os.pathsep + os.environ["PYTHONPATH"] if os.environ.get("PYTHONPATH") else "")
     os.environ[paths.GUARD] = "1"
     os.environ["TQDM_DISABLE"] = "1"
     import logging
